@@ -160,6 +160,21 @@ class Aged:
         return self.hist[r.rng(lo, hi)]
 
 
+def drain_burst(r, U, aged, vals):
+    """empty the resident lists one key at a time (`removeres` leaves ghosts alone), then put keys that were touched
+    before: with nothing resident and a non-empty ghost list a `put` takes paths of its own in 2Q / ARC / W-TinyLFU"""
+    lines = ["removeres %d" % k for k in range(1, U + 1)]
+    olds = list(aged.hist[aged.size: aged.size + aged.ghosts]) if aged is not None else []    # probably ghosts
+    picks = olds[: 3] if olds else [r.rng(1, U)]
+    r_picks = []
+    for k in picks:
+        r_picks.append("put %d %d" % (k, vals.new(k)))
+    if aged is not None:
+        # residents are gone; what was touched stays a ghost candidate
+        pass
+    return lines + r_picks
+
+
 def profile_table(prof, extra):
     t = [(k, w) for k, w in PROFILES[prof].items() if w > 0]
     t += [(k, w) for k, w in extra.items() if w > 0]
@@ -204,7 +219,15 @@ def gen_rawlru(r, cid, nops, opts):
         if name in PROFILES["put"]:
             lines.extend(common_op(r, name, U, vals, hot).split("\n"))
         elif name == "resize":
-            lines.append("resize %d" % r.weighted([(0, 1), (1, 2), (cap, 2), (r.rng(0, cap + 3), 5)]))
+            # now and then a capacity no allocation could ever satisfy (`resize` only stores it): whatever follows — clone, put,
+            # iterators — must not size anything by it; then back to something small
+            if r.chance(1, 12):
+                lines.append("resize %d" % r.pick([(1 << 64) - 1, 1 << 63, (1 << 62) + 5]))
+                kk = r.rng(1, U)
+                lines.append(r.pick(["clone", "clonefrom", "put %d %d" % (kk, vals.new(kk)), "clone"]))
+                lines.append("resize %d" % r.rng(1, cap + 2))
+            else:
+                lines.append("resize %d" % r.weighted([(0, 1), (1, 2), (cap, 2), (r.rng(0, cap + 3), 5)]))
         elif name in ("getlru", "getmru", "peeklru", "peekmru", "removelru"):
             lines.append(name)
         elif name in ("getlrumut", "getmrumut", "peeklrumut", "peekmrumut"):
@@ -254,6 +277,11 @@ def gen_rawfrom(r, cid, nops, opts):
 def gen_slru(r, cid, nops, opts):
     pcap = r.weighted([(1, 3), (2, 3), (3, 2), (r.rng(4, 8), 1)])
     qcap = r.weighted([(1, 3), (2, 3), (3, 2), (r.rng(4, 8), 1)])
+    if opts.get("big"):
+        # lists long enough for their hash tables to have more than one probe group (tombstones, growth): anything that
+        # consults the table's own bookkeeping instead of the list shows up only here
+        # 28 and 56 are 7/8 of a power of two: `HashMap::with_capacity` then has no slack at all
+        pcap, qcap = r.pick([28, 56, 28, r.rng(15, 40)]), r.pick([28, 56, 28, r.rng(15, 40)])
     U = pcap + qcap + 1 + r.below(3)
     vals = Vals()
     prof = r.pick(list(PROFILES))
@@ -305,6 +333,8 @@ LISTS_ARC = ["recent", "frequent", "recentevict", "frequentevict"]
 
 def gen_twoq(r, cid, nops, opts):
     size = r.weighted([(1, 2), (2, 4), (3, 4), (4, 3), (r.rng(5, 12), 2)])
+    if opts.get("big"):
+        size = r.pick([28, 56, 28, r.rng(15, 40)])
     rr = r.pick(RATIO_GRID) if r.chance(3, 4) else r.below(1001) / 1000.0
     # ghost ratio must give a non-zero ghost bound for the case to be interesting
     gr = r.pick([0.5, 0.75, 1.0, 1.0 - 1e-9, 0.25]) if r.chance(3, 4) else r.below(1001) / 1000.0
@@ -327,6 +357,11 @@ def gen_twoq(r, cid, nops, opts):
     room = False
     for _ in range(nops):
         name = r.weighted(table)
+        if r.chance(1, 40) and len(aged.hist) > size:
+            for l in drain_burst(r, U, aged, vals):
+                aged.note(l)
+                lines.append(l)
+            continue
         if name in PROFILES["put"]:
             g = aged.ghostish(r) if (name == "put" and r.chance(1, 3)) else None
             if room and r.chance(1, 2):
@@ -355,6 +390,8 @@ def gen_twoq(r, cid, nops, opts):
 # ---------------------------------------------------------------------------------------------
 def gen_arc(r, cid, nops, opts):
     size = r.weighted([(1, 3), (2, 4), (3, 4), (4, 3), (r.rng(5, 12), 2)])
+    if opts.get("big"):
+        size = r.pick([28, 56, 28, r.rng(15, 40)])
     U = size + 1 + r.below(size + 3)
     vals = Vals()
     prof = r.pick(list(PROFILES))
@@ -369,6 +406,11 @@ def gen_arc(r, cid, nops, opts):
     room = False
     for _ in range(nops):
         name = r.weighted(table)
+        if r.chance(1, 40) and len(aged.hist) > size:
+            for l in drain_burst(r, U, aged, vals):
+                aged.note(l)
+                lines.append(l)
+            continue
         if name in PROFILES["put"]:
             g = aged.ghostish(r) if (name == "put" and r.chance(1, 3)) else None
             if room and r.chance(1, 2):
@@ -583,12 +625,15 @@ def gen_wtsizes(r, cid, nops, opts):
 
 
 def gen_putresult(r, cid, nops, opts):
-    """every pair of PutResult values over a two-element payload universe, and every clone"""
-    vals = ["P"] + ["U:%d" % a for a in (1, 2)] + ["E:%d:%d" % (a, b) for a in (1, 2) for b in (1, 2)] + \
-           ["X:%d:%d:%d" % (a, b, c) for a in (1, 2) for b in (1, 2) for c in (1, 2)]
+    """every pair of PutResult values over a three-element payload universe (9 is a value that is not equal to itself,
+    like a NaN), every clone, and every value compared with ITSELF (one object on both sides of `==`)"""
+    U3 = (1, 2, 9)
+    vals = ["P"] + ["U:%d" % a for a in U3] + ["E:%d:%d" % (a, b) for a in U3 for b in U3] + \
+           ["X:%d:%d:%d" % (a, b, c) for a in U3 for b in U3 for c in U3]
     lines = ["case %d putresult" % cid]
     for a in vals:
         lines.append("prclone %s" % a)
+        lines.append("preqself %s" % a)
         for b in vals:
             lines.append("preq %s %s" % (a, b))
     lines.append("end")
